@@ -76,9 +76,9 @@ def rhs_of(value, local_names):
             and value.func.id in KNOWN_FUNCS and all(isinstance(a, ast.Constant) for a in value.args)):
         return ("lit", "int")
     if isinstance(value, MakeIter):
-        return ("lit", "iter")
+        return ("lit", "Range")
     if isinstance(value, IterNext):
-        return ("lit", "next")
+        return ("lit", "Option[(int, Range)]")
     raise Unmodelled("rhs " + ast.dump(value)[:80])
 
 
@@ -97,7 +97,7 @@ def stmt_events(node, local_names, nested_out):
         for x, poss in inner["live_entry"]:
             if x not in skip:
                 ev.append(("use", x, poss))
-        ev.append(("assign", node.name, ("lit", "fun:" + node.name)))
+        ev.append(("assign", node.name, ("lit", "fun:" + str(node.ty))))
     elif isinstance(node, ast.Assign):
         if len(node.targets) != 1:
             raise Unmodelled("multi-target assign")
@@ -110,7 +110,7 @@ def stmt_events(node, local_names, nested_out):
                 and node.value.func.attr == "unwrap":
             # for-loop template:  x, it = res.unwrap()   (range elements are ints)
             ev.append(("assign", t.elts[0].id, ("lit", "int")))
-            ev.append(("assign", t.elts[1].id, ("lit", "iter")))
+            ev.append(("assign", t.elts[1].id, ("lit", "Range")))
         else:
             raise Unmodelled("assign target " + ast.dump(t)[:60])
     elif isinstance(node, ast.AugAssign):
